@@ -365,7 +365,9 @@ def canaries():
 
         E.iter_custom_options_dicts = iter_custom
         # decoder side: excursion 1 lower for custom signal ranges with odd luma offsets above 100
-        import vc2_conformance.decoder.sequence_header as D
+        import importlib
+
+        D = importlib.import_module("vc2_conformance.decoder.sequence_header")  # the package re-exports a function of the same name
         orig_sr = D.signal_range
 
         def signal_range(state, video_parameters):
